@@ -286,8 +286,8 @@ def run(ctx):
                 "(c) every method of the shipped DEX files vs an independent sweep. distinct non-trivial = distinct (format set, switch, fill, new opcodes) / (mutation kind, size class)")
     ctx.assumptions = ["vf/model/dalvik.py format table; vf/model/dexr.py independent reader for shipped files",
                        "step budget = 100 x (2000 + r*n) with r calibrated in-run; a super-linear loop with a small constant could pass"]
-    nv = 60 if ctx.quick else 4000
-    nh = 6000 if ctx.quick else 400000
+    nv = 60 if ctx.quick else 20000
+    nh = 6000 if ctx.quick else 1500000
     args = [["shard_valid", [i, nv // 16 + 1]] for i in range(16)] + [["shard_hostile", [i, nh // 16 + 1]] for i in range(16)]
     args += [["shard_feff", [i * 64, (i + 1) * 64]] for i in range(4)]
     files = shipped_dex_files()
